@@ -23,7 +23,7 @@ import (
 func init() {
 	Registry["C08"] = &Check{
 		Scenarios: c08Scenarios,
-		Rule: "Server.Serve on a scripted listener with two connections (both accepted, or one accepted and one attached with diam.NewConn); three requests per connection delivered as {one segment, one segment per message, split at the header/body border, first message in 10-byte pieces, first message one byte at a time}; instrumented handlers record enter/exit around a scheduling point and answer; variants: plain, and the first handler on connection A blocked for ever; every schedule up to preemption bound 3 (thorough 6). The environment is eager (all fragments queued before the server starts; a Read never crosses a fragment boundary), because the arrival instant of a fragment is unobservable to a per-connection single-threaded reader; what is explored is every interleaving of the accept loop, the per-connection readers and the handlers.",
+		Rule: "Server.Serve on a scripted listener with two connections (both accepted, or one accepted and one attached with diam.NewConn); three requests per connection (re-auth, device-watchdog, capabilities-exchange, in that order) delivered as {one segment, one segment per message, split at the header/body border, first message in 10-byte pieces, first message one byte at a time}; instrumented handlers record enter/exit around a scheduling point and answer; variants: plain, and the first handler on connection A blocked for ever; every schedule up to preemption bound 3 (thorough 6). The environment is eager (all fragments queued before the server starts; a Read never crosses a fragment boundary), because the arrival instant of a fragment is unobservable to a per-connection single-threaded reader; what is explored is every interleaving of the accept loop, the per-connection readers and the handlers.",
 		Assume: []string{"data-race freedom between visible operations (audited separately with -race)"},
 		QuickBudget: 120, ThoroughBudget: 2400,
 	}
@@ -50,8 +50,12 @@ var srvSt *srvState
 
 // srvReq builds request seq of connection conn; the body names both, so that a handler can
 // tell whether the bytes it was given belong to the message the header announces.
+// The command rotates with the sequence number (re-auth, device-watchdog, capabilities-exchange),
+// so that a dispatch rule specific to one command cannot hide.
+var srvCodes = []uint32{258, 280, 257}
+
 func srvReq(conn, seq int) []byte {
-	return refcodec.EncodeMessage(refcodec.Header{Version: 1, Flags: 0x80, Code: 258, App: 0, HbH: uint32(conn + 1), E2E: uint32(seq + 1)},
+	return refcodec.EncodeMessage(refcodec.Header{Version: 1, Flags: 0x80, Code: srvCodes[seq%len(srvCodes)], App: 0, HbH: uint32(conn + 1), E2E: uint32(seq + 1)},
 		[]refcodec.Node{ident(264, fmt.Sprintf("conn%d-msg%d.example", conn+1, seq+1)), ident(296, "r")})
 }
 
